@@ -5,7 +5,7 @@ import vlib
 from vlib import coq_list, coq_bool
 from fam import match as M
 
-PROTOS = ["redis", "http"]
+PROTOS = ["redis", "http", "http2", "kafka"]
 
 
 def site_class(site):
@@ -18,6 +18,8 @@ def site_class(site):
     if site in ("emit.index", "blocked:emit.lock"):
         return 3
     if site.startswith("blocked:") and site.endswith(".lock"):
+        return 1
+    if site.endswith(".poll"):
         return 1
     return 9
 
@@ -35,6 +37,8 @@ def model_trace(steps, names):
             moved = False
         elif new.startswith("blocked:") and site_class(new) == site_class(p) and p != "start":
             moved = False      # ran into a held lock without completing an atom
+        elif new.endswith(".poll") and p.endswith(".poll"):
+            moved = False      # polled again
         elif p == "blocked:emit.lock" and new == "emit.index":
             moved = False      # acquired the emitter's lock: inside the model's MEmit atom
         tr.append((i, site_class(new), moved))
@@ -87,6 +91,8 @@ def run(ctx):
                 res = r["res"]
                 got = [(i["conn"], i["req"], i["resp"]) for i in res["items"] or []]
                 got_res = M.parse_residue(proto, res["residue"])
+                if proto in ("http2", "kafka"):     # stream / correlation id 2j+1 of the j-th message <-> counter j+1
+                    got_res = {(c, (k + 1) // 2, d, p) for c, k, d, p in got_res}
                 tr = model_trace(r["steps"], names)
                 ctx.count_case((proto, str(cfg), tuple(tr)), True, proto)
                 idx = {}
@@ -116,8 +122,8 @@ def run(ctx):
                            "Definition cases : list (cfg * list (nat * nat * bool) * list item * list (nat * nat * bool * nat)) := [\n"
                            + ";\n".join(terms[k:k + 800]) + "].\n"
                            "Definition chk (c : cfg * list (nat * nat * bool) * list item * list (nat * nat * bool * nat)) := let '(cf, tr, its, res) := c in\n"
-                           "  let s := msync true true (minit cf) tr in mfinished s && list_eqb item_eqb (emitted s) its && list_eqb quad_eqb (residue (mm s) [1;2;3;4] 8) res.\n"
-                           "Definition M := Eval vm_compute in failing chk cases.\nPrint M.\n")
+                           "  let s := msync true %s (minit cf) tr in mfinished s && list_eqb item_eqb (emitted s) its && list_eqb quad_eqb (residue (mm s) [1;2;3;4] 8) res.\n"
+                           "Definition M := Eval vm_compute in failing chk cases.\nPrint M.\n") % ("false" if proto == "kafka" else "true")
                     rc, out = ctx.coq_run("conc_%s_%d_%d" % (proto, len(terms), k), src)
                     idxs = vlib.parse_coq_list_of_nat(out, "M")
                     if rc != 0 or idxs is None:
@@ -133,7 +139,7 @@ def run(ctx):
     iters = 3000 if ctx.tier == "quick" else 40000
     if "Match/MatcherTie.v" in failed:
         iters *= 10
-    for proto in PROTOS:
+    for proto in ("redis", "http", "http2"):
         rc, out = ctx.vh("vh-match", ["stress", proto, str(iters), "3"], timeout=1800)
         try:
             o = json.loads(out.strip().splitlines()[-1])
